@@ -15,3 +15,4 @@ open Biogo.Properties.C07
 #print axioms append_each_exact_multi
 #print axioms append_columns_exact_multi
 #print axioms flush_preserves
+#print axioms initial_multi_wellformed
